@@ -2254,6 +2254,14 @@ impl<'input, T: Input> Scanner<'input, T> {
                 && self.input.next_can_be_plain_scalar(self.flow_level > 0)
             {
                 if self.leading_whitespace {
+                    // A continuation line of a plain scalar inside a flow collection is a
+                    // continuation line of that collection: it must be indented like one.
+                    if self.flow_level > 0 && (self.mark.col as isize) < indent {
+                        return Err(ScanError::new_str(
+                            self.mark,
+                            "invalid indentation in flow construct",
+                        ));
+                    }
                     if self.buf_leading_break.is_empty() {
                         string.push_str(&self.buf_leading_break);
                         string.push_str(&self.buf_trailing_breaks);
